@@ -856,11 +856,31 @@ func (c *Ctx) applyContractAt(s *State, fr *Frame, site string, pos token.Pos, f
 			}
 		}
 	}
+	env2.calleeCalls = map[string]string{}
 	for _, e := range fc.Ensures {
 		if strings.HasPrefix(e.Label, "bv:") && !c.ar.bv {
 			continue // bit-level clause: not usable (and not needed) by callers verified with integer arithmetic
 		}
+		if strings.Contains(e.Text, "calledinloop(") || strings.Contains(e.Text, "lastresult") {
+			// clauses about the callee's own call log (results, per-iteration counts) are checked on the callee only
+			continue
+		}
 		c.assume(s, env2.evalBool(e.Expr))
+	}
+	// calls the callee makes (as far as its contract states them) count as calls of the caller
+	if len(env2.calleeCalls) > 0 {
+		c.assumptions["call counts are transitive only through called(...) clauses of callee contracts; calls a callee makes without stating them are not counted"] = true
+		if s.callExtra == nil {
+			s.callExtra = map[string][]string{}
+		}
+		var names []string
+		for n := range env2.calleeCalls {
+			names = append(names, n)
+		}
+		sort.Strings(names)
+		for _, n := range names {
+			s.callExtra[n] = append(s.callExtra[n], env2.calleeCalls[n])
+		}
 	}
 	return res
 }
